@@ -55,7 +55,7 @@ kind_to_target = dict(
     subtract="({0}) - ({1})",
     multiply="({0}) * ({1})",
     divide="({0}) / ({1})",
-    remainder="({0}) %% ({1})",
+    remainder="({0}) % ({1})",
     floor_divide="({0}) // ({1})",
     pow="({0}) ** ({1})",
     logical_and="({0}) and ({1})",
